@@ -262,6 +262,51 @@ def run(prog, rep, tier='quick', config='default'):
                               detail='the scan stops when settlement_date %s %s bound (must be %s): an acquisition exactly 30 days %s the sale would be '
                                      '%s' % (sym, which, '>' if want == 'gt' else '<', 'after' if which == 'upper' else 'before',
                                              'excluded' if opn in ('ge', 'le') else 'handled wrongly'))
+        # the same scans written as `txs.iter().skip(i + 1).take_while(|t| t.settlement_date <= last)`: the scan leaves the window
+        # when the predicate is false
+        for g in prog.closures_of(scan):
+            tw = [(par, hc) for (par, hc, ai) in mir.handed_to(prog, g) if hc.decl.endswith('Iterator::take_while')]
+            if not tw:
+                continue
+            for c in g.calls:
+                m = re.search(r'PartialOrd::(gt|lt|ge|le)$', c.decl)
+                if not m or len(c.args) != 2:
+                    continue
+                op = m.group(1)
+                o = [mir.origins_with_captures(prog, scan, g, a) for a in c.args]
+                side = None
+                for i in (0, 1):
+                    if any(re.search(re.escape(last[0].name) + '$', x.callee) for x in o[i][1]):
+                        side = ('upper', i)
+                    if any(re.search(re.escape(first[0].name) + '$', x.callee) for x in o[i][1]):
+                        side = ('lower', i)
+                if side is None:
+                    continue
+                which, bi = side
+                xi = 1 - bi
+                xf = {f for (of, f) in o[xi][0] if of.endswith('model::tx::Tx') and 'date' in f}
+                found[which] += 1
+                k = 'scan-%s-bound#%d' % (which, found[which])
+                if xf != {'settlement_date'}:
+                    rep.violation('R2c', k + '|settlement-date', where=c.where(), fn=scan.name,
+                                  detail='the %s window bound is compared with Tx.%s: acquisitions count by settlement date' % (which, sorted(xf) or '?'))
+                    continue
+                ret = mir.provenance(g, 0)
+                if c not in ret.calls or ret.unops or ret.binops or len([x for x in ret.calls if re.search(r'PartialOrd::', x.decl)]) != 1:
+                    rep.violation('R2c', k, where=c.where(), fn=scan.name, detail='the take_while predicate is not the plain window comparison')
+                    continue
+                # continue while  x OP bound  ->  exit when the negation holds
+                opn = op if xi == 0 else {'gt': 'lt', 'lt': 'gt', 'ge': 'le', 'le': 'ge'}[op]
+                opn = {'gt': 'le', 'le': 'gt', 'lt': 'ge', 'ge': 'lt'}[opn]
+                want = 'gt' if which == 'upper' else 'lt'
+                if opn == want:
+                    rep.ok('R2c', k, where=c.where(), fn=scan.name,
+                           detail='take_while: the scan stops when settlement_date %s %s bound: day %s30 is inside the window' % ('>' if want == 'gt' else '<', which, '+' if which == 'upper' else '-'))
+                else:
+                    sym = {'gt': '>', 'ge': '>=', 'lt': '<', 'le': '<='}[opn]
+                    rep.violation('R2c', k, where=c.where(), fn=scan.name,
+                                  detail='the scan stops when settlement_date %s %s bound (must be %s): an acquisition exactly 30 days %s the sale would be '
+                                         'excluded' % (sym, which, '>' if want == 'gt' else '<', 'after' if which == 'upper' else 'before'))
         for which in ('upper', 'lower'):
             if found[which] == 0:
                 rep.violation('R2c', 'anchor-lost:%s-bound-comparison' % which, fn=scan.name,
@@ -294,7 +339,7 @@ def run(prog, rep, tier='quick', config='default'):
                 rep.violation('R2d', k + '|value', where=c.where(), fn=val.name, detail='the allowed discrepancy is %s (must be 0.001)' % float(tol))
             else:
                 rep.ok('R2d', k + '|value', where=c.where(), fn=val.name, detail='MAX_DIFF evaluates to 0.001')
-            errs = {i for i, b in val.blocks.items() for s in b['stmts'] if s['dst']['l'] == 0 and s['r']['rv'] == 'agg' and s['r']['kind'].endswith('Result::Err')}
+            errs = {i for i, b in val.blocks.items() for s in b['stmts'] if not s['dst']['p'] and s['r']['rv'] == 'agg' and s['r']['kind'].endswith('Result::Err')}
             if sw and sw['t'] == 'switch':
                 true_t = sw['otherwise']
                 false_t = [t for v, t in sw['targets'] if v == 0]
@@ -355,7 +400,7 @@ def run(prog, rep, tier='quick', config='default'):
                     false_t = [tg for v, tg in t['targets'] if v == 0]
                     # successor taken when force == true
                     forced_edges.add(false_t[0] if (neg_op and false_t) else true_t)
-            errs = {i for i, b in val.blocks.items() for s2 in b['stmts'] if s2['dst']['l'] == 0 and s2['r']['rv'] == 'agg' and s2['r']['kind'].endswith('Result::Err')}
+            errs = {i for i, b in val.blocks.items() for s2 in b['stmts'] if not s2['dst']['p'] and s2['r']['rv'] == 'agg' and s2['r']['kind'].endswith('Result::Err')}
             errs |= {c.bb for c in val.calls if c.short == 'from_residual'}
             if entry is None or not forced_edges:
                 rep.violation('R2d', 'anchor-lost:specified-branch', fn=val.name, detail='anchor lost: the branch handling a user-specified superficial loss / its force flag')
@@ -373,10 +418,19 @@ def run(prog, rep, tier='quick', config='default'):
                            detail='every non-error path through the specified-loss branch passes the discrepancy check or the force==true edge')
         # R2e: the force marker influences nothing but the discrepancy check
         readers = []
+        allowed = {val.name}
         for fn in prog.product_fns():
             if not fn.name.startswith('portfolio::bookkeeping::') and not fn.name.startswith('portfolio::summary::'):
                 continue
-            for b in fn.blocks.values():
+            own = set(getattr(fn, 'origin', fn).blocks)       # on a view with helpers spliced in, a read is attributed to the function it is written in
+            for c in fn.calls:
+                if c.bb in own and not c.inlined and re.search(r'PartialOrd::(gt|lt|ge|le)$', c.decl) and len(c.args) == 2 and \
+                        any(decimal_const(prog, fn, a) is not None for a in c.args) and \
+                        any(mir.provenance(fn, a, follow_all_call_args=True).has_call(r'Decimal::abs$') for a in c.args):
+                    allowed.add(fn.name)      # the helper holding the discrepancy comparison itself
+            for bi, b in fn.blocks.items():
+                if bi not in own:
+                    continue
                 for s2 in b['stmts']:
                     for pl in fn.stmt_sources(s2):
                         if any(of.endswith('model::tx::SFLInput') and fl == 'force' for of, fl in mir.place_fields(pl)):
@@ -384,7 +438,7 @@ def run(prog, rep, tier='quick', config='default'):
                 tm = b['term']
                 if tm and tm['t'] == 'switch' and is_place(tm['discr']) and any(of.endswith('model::tx::SFLInput') and fl == 'force' for of, fl in mir.place_fields(tm['discr']['pl'])):
                     readers.append((fn, tm))
-        bad = [(fn, n2) for (fn, n2) in readers if fn.name != val.name]
+        bad = [(fn, n2) for (fn, n2) in readers if fn.name not in allowed]
         # summary re-emits rows with an explicit (forced) loss: constructing SFLInput is not a read
         if bad:
             fn, n2 = bad[0]
